@@ -24,7 +24,7 @@ def cfg(params="P2", kind="K2", dom="D2", wc="WC3", acts="ActsAll", maxw=2, maxo
     return "\n".join(lines) + "\n"
 
 
-KINDS = {"K2": {"a": "int", "b": "int"}, "K3e": {"a": "int", "e": "event"}, "Keq": {"a": "any", "b": "int"},
+KINDS = {"Ks": {"a": "int", "sa": "slot"}, "K2": {"a": "int", "b": "int"}, "K3e": {"a": "int", "e": "event"}, "Keq": {"a": "any", "b": "int"},
          "K3c": {"a": "int", "c": "const"}}
 
 
@@ -72,6 +72,9 @@ def run(prop, tier, seed):
                 ("g2", cfg(params="Peq", kind="Keq", dom="Deq", acts="ActsC03s", wc="WCeq", initws="IWeq", upd="UIeq", maxops=ex, hist=True, onabort=onabort), "Keq", None, None),
                 ("s1", cfg(acts="ActsC03", maxops=6, maxstack=7, hist=True, onabort=onabort, wc="WC5", initws="IW5", maxw=3, upd="UI2", trg="TN2"), "K2", nsim, 100),
                 ("s2", cfg(params="Peq", kind="Keq", dom="Deq", acts="ActsC03", wc="WCeq", initws="IWeq", upd="UIeq", trg="TN2", maxops=6, maxstack=7, maxw=3, hist=True, onabort=onabort), "Keq", nsim // 2, 100)]
+        # Parameter-attribute ("slot") watchers and watch_values (kwargs-mode) watchers
+        gens.append(("g3", cfg(params="Ps", kind="Ks", dom="Ds", wc="WCs", initws="IWs", acts="ActsC03sl", upd="UIs", trg="TNs", maxops=ex, hist=True, onabort=onabort), "Ks", None, None))
+        gens.append(("s3", cfg(params="Ps", kind="Ks", dom="Ds", wc="WCs", initws="IWs", acts="ActsC03sl", upd="UIs", trg="TNs", maxops=6, maxstack=7, maxw=3, hist=True, onabort=onabort), "Ks", nsim // 2, 100))
         nt = "call"
     elif prop == "C04":
         rule = "non-trivial: a batching context was entered and at least one callback ran"
@@ -111,6 +114,16 @@ def run(prop, tier, seed):
                                     {"nontrivial": nt, "probe": prop == "C05", "tolerate": tolerate}, scratch, 1500)
         stages = [rst]
         if prop == "C03":
+            # the same programs dispatched on a class (class-level watchers, class attribute assignment)
+            cg = [{"module": M, "cfg": "C03_cls.cfg", "workers": 4, "opts": {"kinds": KINDS["K2"], "owner": "class"},
+                   "extra_defs": {"C03_cls.cfg": cfg(acts="ActsC03n", maxops=ex, hist=True, onabort=onabort, wc="WC5", initws="IW5", upd="UI2", trg="TN2")}},
+                  {"module": M, "cfg": "C03_clss.cfg", "workers": SIMW, "simulate": nsim // 2, "depth": 100, "seed": seed,
+                   "opts": {"kinds": KINDS["K2"], "owner": "class"},
+                   "extra_defs": {"C03_clss.cfg": cfg(acts="ActsC03", maxops=6, maxstack=7, hist=True, onabort=onabort, wc="WC5", initws="IW5", maxw=3, upd="UI2", trg="TN2")}}]
+            stages.append(pipeline.replay_stage(cg, "paramcore", {"nontrivial": nt, "tolerate": tolerate}, scratch, 1500, name="replay_class_level"))
+            sg = [dict(g, cfg=g["cfg"].replace("cls", "sub"), extra_defs={k.replace("cls", "sub"): v for k, v in g["extra_defs"].items()},
+                       opts=dict(g["opts"], owner="subclass")) for g in cg[:1]]
+            stages.append(pipeline.replay_stage(sg, "paramcore", {"nontrivial": nt, "tolerate": tolerate}, scratch, 1500, name="replay_subclass_level"))
             est = pipeline.replay_stage([{"module": "MC_Equality.tla", "cfg": "MC_Equality_gen.cfg", "workers": 4}],
                                         "equality", {}, scratch, 900, name="replay_equality", chunk=4)
             pst2 = pipeline.tlc_prop_stage([{"module": "MC_Equality.tla", "cfg": "MC_Equality_prop.cfg"}], scratch, 600)
